@@ -102,7 +102,7 @@ def runMiddlewares : List Bool → Nat → Sess → Sess × Bool
 
 def finish (s : Sess) (e : End) (cp sp : List (Bytes × Bytes)) (stuffed : Bool := false)
     (ssl : Option UInt8 := none) : Result :=
-  { ssl, msgs := s.out.reverse, ev := s.ev.reverse, ending := e, unsup := s.unsup,
+  { ssl, msgs := s.out.reverse, ev := s.ev.reverse, ending := e, unsup := s.inp.unsup,
     clientParams := cp, serverParams := sp, stuffed }
 
 /-- all bytes the server wrote, as separate `Write` calls -/
@@ -125,7 +125,7 @@ def serveAfterVersion (cfg : Config) (h : Handlers) (s0 : Sess) (body rest : Byt
   | none => finish s0 .closed [] [] stuffed
   | some cp =>
     let cps := sortParams cp
-    let s := { s0 with items := deframe s0.L rest }
+    let s : Sess := { s0 with inp := { s0.inp with items := deframe s0.inp.L rest } }
     let user := (lookup (ascii "user") cp).getD []
     let db := (lookup (ascii "database") cp).getD []
     -- handleAuth
@@ -135,16 +135,17 @@ def serveAfterVersion (cfg : Config) (h : Handlers) (s0 : Sess) (body rest : Byt
       else match s.send (.auth 3) with
         | (s, false) => (s, some .closed)
         | (s, true) =>
-          match s.next with
-          | (.blocked, s) => (s, some .waiting)
-          | (.rerr, s) => (s, some .closed)
-          | (.item (.big _ _ _), s) => (s, some .closed)
-          | (.item (.msg t pwbody), s) =>
+          match s.inp.next with
+          | (.blocked, i) => ({ s with inp := i }, some .waiting)
+          | (.rerr, i) => ({ s with inp := i }, some .closed)
+          | (.item (.big _ _ _), i) => ({ s with inp := i }, some .closed)
+          | (.item (.msg t pwbody), i) =>
+            let s : Sess := { s with inp := i }
             if t ≠ ch 'p' then (s, some .closed)
             else match cstr pwbody with
               | none => (s, some .closed)
               | some (pw, r) =>
-                let s := { s with msg := r }.log (.validate db user pw)
+                let s := (s.setMsg r).log (.validate db user pw)
                 match h.validate db user pw with
                 | .fail => (s, some .closed)
                 | .reject => ((sendError s (some errInvalidPassword)).1, some .closed)
@@ -167,7 +168,7 @@ def serveAfterVersion (cfg : Config) (h : Handlers) (s0 : Sess) (body rest : Byt
     upgrade happens (`Tls.unwrap` of the raw bytes after the handshake). -/
 def serve (cfg : Config) (h : Handlers) (inp : Bytes) (tin : Bytes := []) : Result :=
   let L := effLimit cfg.L
-  let s0 : Sess := { L, items := [], tail := cfg.tail, wleft := cfg.wleft }
+  let s0 : Sess := { inp := { L, items := [], tail := cfg.tail }, wleft := cfg.wleft }
   match readUntyped L inp with
   | .short => finish s0 (endOf cfg.tail) [] []
   | .exceeded => finish s0 .closed [] []
